@@ -135,6 +135,8 @@ pub enum Opt {
     Overflow,
     Pad,
     Raw,
+    /// raw_mode(false): a setter called with the default value
+    RawOff,
     NoBorders,
     NoLinkWrap,
     Footnotes(bool),
@@ -200,6 +202,7 @@ impl Cfg {
                 Opt::Overflow => ".allow_width_overflow()".to_string(),
                 Opt::Pad => ".pad_block_width()".to_string(),
                 Opt::Raw => ".raw_mode(true)".to_string(),
+                Opt::RawOff => ".raw_mode(false)".to_string(),
                 Opt::NoBorders => ".no_table_borders()".to_string(),
                 Opt::NoLinkWrap => ".no_link_wrapping()".to_string(),
                 Opt::Footnotes(b) => format!(".link_footnotes({b})"),
@@ -332,6 +335,7 @@ pub fn apply_opts<D: TextDecorator>(mut c: Config<D>, opts: &[Opt]) -> Result<Co
             Opt::Overflow => c.allow_width_overflow(),
             Opt::Pad => c.pad_block_width(),
             Opt::Raw => c.raw_mode(true),
+            Opt::RawOff => c.raw_mode(false),
             Opt::NoBorders => c.no_table_borders(),
             Opt::NoLinkWrap => c.no_link_wrapping(),
             Opt::Footnotes(b) => c.link_footnotes(*b),
